@@ -127,7 +127,15 @@ func emitDerived(out *Out, g *DocGen, root *ANode, hs HSpec, r *Rng) {
 				why = append(why, "Merklizer.Hasher() hashes differently from the configured hasher")
 			}
 		}
-		for _, gv := range []any{int(-3), int64(-4), int32(-5), int(7), int64(8), uint(9), uint32(10), uint64(11), int64(0)} {
+		goVals := []any{int(-3), int64(-4), int32(-5), int(7), int64(8), uint(9), uint32(10), uint64(11), int64(0)}
+		if hs.Prime.IsInt64() && hs.Prime.Int64() < 1<<62 {
+			// Go-typed integers at and beyond the limits of a small configured prime: inside the range v or p+v, outside an error -
+			// whatever Go type carries the number
+			pi := hs.Prime.Int64()
+			half := (pi - 1) / 2
+			goVals = append(goVals, int64(pi-1), int64(pi), int64(pi+1), int64(-half), int64(-half-1), int64(-pi), int64(2*pi+3), uint64(pi), uint64(pi-1), int(-half-1), int(pi))
+		}
+		for _, gv := range goVals {
 			var want *big.Int
 			switch x := gv.(type) {
 			case int:
@@ -143,6 +151,8 @@ func emitDerived(out *Out, g *DocGen, root *ANode, hs HSpec, r *Rng) {
 			case uint64:
 				want = new(big.Int).SetUint64(x)
 			}
+			halfP := new(big.Int).Rsh(new(big.Int).Sub(hs.Prime, big.NewInt(1)), 1)
+			inRange := want.Cmp(hs.Prime) < 0 && want.Cmp(new(big.Int).Neg(halfP)) >= 0
 			if want.Sign() < 0 {
 				want.Add(want, hs.Prime)
 			}
@@ -151,7 +161,14 @@ func emitDerived(out *Out, g *DocGen, root *ANode, hs HSpec, r *Rng) {
 				if err != nil {
 					continue // a Go type the constructor does not take: an error is fine, a wrong number is not
 				}
-				if got, err := v.MtEntry(); err != nil || got.Cmp(want) != 0 {
+				got, err := v.MtEntry()
+				if !inRange {
+					if err == nil {
+						why = append(why, fmt.Sprintf("%s(%T %v) is outside the integer range of the configured prime %v but encodes as %v", which, gv, gv, hs.Prime, got))
+					}
+					continue
+				}
+				if err != nil || got.Cmp(want) != 0 {
 					why = append(why, fmt.Sprintf("%s(%T %v) under the configured prime %v encodes as %v (%v), expected %v", which, gv, gv, hs.Prime, got, err, want))
 				}
 			}
